@@ -214,24 +214,36 @@ def convert(ev):
 _VARIANT = {}
 
 
-def variant_once():
-    """Which is_running the tree under test has: one read of _active_agent (repaired) or two
-    (pinned).  Probed on the real code: a single-threaded call with an active agent."""
-    if 'once' not in _VARIANT:
+def variant():
+    """Which repaired methods the tree under test has, probed on the real code with
+    single-threaded calls: is_running reads _active_agent once (D40) or twice (pinned);
+    clear_queue takes the lock (D46) or not (pinned)."""
+    if not _VARIANT:
         from bardolph.lib import job_control
         s = sched.Scheduler([])
-        reads = []
         with s.patched(job_control), s.shared_attrs(job_control.JobControl, ['_active_agent']):
             jc = job_control.JobControl()
+            jc._lock.name = 'lock'
+            jc._queue = s.deque('q')
             jc.__dict__['_active_agent'] = job_control.Agent(None, None, 'x')
 
             def probe():
                 jc.is_running('y')
+                s.mark('sep')
+                jc.clear_queue()
             s.add_client(probe)
             res = s.run()
-            reads = [e for e in res.events if e[1] == 'read _active_agent']
-        _VARIANT['once'] = len(reads) == 1
-    return _VARIANT['once']
+        labs = [e[1] for e in res.events]
+        sep = labs.index('sep')
+        _VARIANT['isr_once'] = labs[:sep].count('read _active_agent') == 1
+        _VARIANT['clear_locked'] = 'lock.acquire' in labs[sep:]
+    return _VARIANT
+
+
+def coq_variant():
+    v = variant()
+    return '{| isr_once := %s; clear_locked := %s |}' % ('true' if v['isr_once'] else 'false',
+                                                         'true' if v['clear_locked'] else 'false')
 
 
 # --------------------------------------------------------------------------- printing Coq terms
@@ -296,7 +308,7 @@ def coq_scenario(scn):
 def coq_case(scn, choices, out):
     b, c = coq_scenario(scn)
     return ('{| c_variant := %s; c_bodies := %s; c_clients := %s; c_choices := %s; c_log := %s; c_finished := %s; c_has_jobs := %s |}'
-            % ('true' if variant_once() else 'false', b, c, coq_list([cz(x) for x in choices]), coq_entries(out['entries']),
+            % (coq_variant(), b, c, coq_list([cz(x) for x in choices]), coq_entries(out['entries']),
                'true' if out['finished'] else 'false', 'true' if out['has_jobs'] else 'false'))
 
 
@@ -790,7 +802,7 @@ def run(ctx):
     ctx.extra['model_branches_new'] = sorted(set(edges) - set(KNOWN_EDGES))
     ctx.extra['runs'] = {'compared_in_coq': len(cases), 'finished': stats['finished'], 'steps': stats['steps'],
                          'explored_steps': stats.get('explored_steps', 0)}
-    ctx.extra['is_running_variant'] = 'one read (repaired)' if variant_once() else 'two reads (pinned)'
+    ctx.extra['variant'] = dict(variant())
     ctx.extra['observations'] = stats['observations']
     ctx.extra['observation_examples'] = stats['observation_example']
 
